@@ -27,7 +27,9 @@ var c06Heads = []string{
 	"X-Before: 1\r\nContent-Length:\r\n %d \r\n",
 	"Content-Length: %[1]d\r\nContent-Length: %[1]d\r\n", // repeated with the same value
 	"l: %[1]d\r\nX-Mid: 1\r\nContent-Length: %[1]d\r\nl:%[1]d\r\n",
-	"Content-Length: %d\r\nExpires: 31536000\r\n", // another numeric header, above the Content-Length limit, last in the block
+	"Content-Length: %d\r\nExpires: 31536000\r\n",          // another numeric header, above the Content-Length limit, last in the block
+	"Subject: \r\nContent-Length: %d\r\nSupported:\t \r\n", // generic headers with an empty value and white space after the colon
+	"l: %d\r\nAccept:\r\n \r\nX-E:  \r\n",                  // ... also folded, also as the last header
 }
 
 func (cs *c06Case) render() (buf []byte, bodyStart int, hasCLen bool) {
